@@ -106,6 +106,7 @@ Section TeamEffort.
     forall team st0 cur,
       NoDup team ->
       (forall r, In r team -> cells cur r slot = cells st0 r slot) ->
+      team_gate p st0 t slot (sbooked cur) team = true ->
       (forall r, In r team -> sr_work (tres_of p r) slot = true /\ Inv G (cells st0 r slot) /\
                               tol_avail < G - used (cells st0 r slot) /\ refused (cells st0 r slot) = false /\
                               m <= free (if first then off else 0) (cells st0 r slot)) ->
@@ -116,7 +117,7 @@ Section TeamEffort.
         (forall r' s', (~ In r' team \/ s' <> slot) -> cells st' r' s' = cells cur r' s') /\
         splaced st' = splaced cur.
   Proof.
-    intros Ho1 Ho2 Hm. induction team as [|r tl IH]; intros st0 cur Hnd Hsame Hok.
+    intros Ho1 Ho2 Hm. induction team as [|r tl IH]; intros st0 cur Hnd Hsame Hg Hok.
     - exists cur. cbn [book_members map]. repeat split; intros; try reflexivity. destruct H.
     - inversion Hnd as [|? ? Hnr Hnd']; subst.
       destruct (Hok r (or_introl eq_refl)) as (Ew & Hinv & Ha & Hr & Hfree).
@@ -124,11 +125,15 @@ Section TeamEffort.
       set (c0 := cells st0 r slot) in *.
       destruct (book_one t off first m c0 Hinv Ha Hr Ho1 Ho2 Hm Hfree) as (Hent & Hmin & Hb).
       fold (pre first off c0). cbn zeta in Hb. rewrite Hb.
+      cbn [team_gate] in Hg. apply andb_true_iff in Hg as [Hg Hgtl]. apply andb_true_iff in Hg as [_ Hlim].
+      rewrite Hlim. cbn [negb orb].
       set (c2 := step G (pre first off c0) (Book t (Some m))) in *.
-      destruct (IH st0 (set_cell cur r slot c2) Hnd') as (st' & E & A & B & C).
-      + intros r' Hr'. rewrite tcells_set_other; [apply Hsame; now right|]. left. intros ->. contradiction.
+      destruct (IH st0 (note_booking (set_cell cur r slot c2) t r slot) Hnd') as (st' & E & A & B & C).
+      + intros r' Hr'. rewrite cells_note, tcells_set_other; [apply Hsame; now right|]. left. intros ->. contradiction.
+      + exact Hgtl.
       + intros r' Hr'. apply Hok. now right.
-      + exists st'. rewrite E. split; [reflexivity|]. split; [|split].
+      + rewrite cells_note in B. change (splaced (note_booking (set_cell cur r slot c2) t r slot)) with (splaced cur) in C.
+        exists st'. rewrite E. split; [reflexivity|]. split; [|split].
         * intros r' [<-|Hr']; [|now apply A].
           rewrite B by (left; exact Hnr). apply tcells_set_same.
         * intros r' s' Hrs. rewrite B.
@@ -176,11 +181,14 @@ Section TeamEffort.
   (* ------------------------------------------------------------ one slot of a team of two or more *)
   Definition multi (team : list nat) : bool := match team with _ :: _ :: _ => true | _ => false end.
 
-  Lemma gate_spec st slot team : forallb (member_available p st slot) team = true ->
+  Lemma gate_spec st t slot : forall team ev, team_gate p st t slot ev team = true ->
     forall r, In r team -> sr_work (tres_of p r) slot = true /\ tol_avail < G - used (cells st r slot) /\
                            refused (cells st r slot) = false.
   Proof.
-    rewrite forallb_forall. intros H r Hr. specialize (H r Hr). unfold member_available in H. cbn zeta in H.
+    induction team as [|r0 tl IH]; intros ev H r Hr; [destruct Hr|]. cbn [team_gate] in H.
+    apply andb_true_iff in H as [H Htl]. apply andb_true_iff in H as [H _].
+    destruct Hr as [<-|Hr]; [|eapply IH; eassumption].
+    unfold member_available in H. cbn zeta in H.
     apply andb_true_iff in H as [H H3]. apply andb_true_iff in H as [H1 H2].
     split; [exact H1|]. split.
     - apply negb_true_iff in H2. apply Qnot_le_lt. intros L. apply Qle_bool_iff in L. congruence.
@@ -197,7 +205,7 @@ Section TeamEffort.
      the same length (== the common seconds m), nothing else changed *)
   Lemma team_slot t off (first : bool) slot team st : multi team = true -> NoDup team -> TInv p st ->
     0 <= off -> tol_avail < G - off ->
-    forallb (member_available p st slot) team = true ->
+    team_gate p st t slot (sbooked st) team = true ->
     exists m st1 booked,
       common_secs G (if first then off else 0) st slot team = Some m /\
       book_members p t off first (Some m) slot team st = (st1, booked) /\
@@ -218,15 +226,15 @@ Section TeamEffort.
       [|exfalso; destruct team as [|r0 tl]; [discriminate Hmulti|]; cbn [common_secs] in Ec;
         destruct (common_secs G o st slot tl); discriminate Ec].
     assert (Hfree : forall r, In r team -> tol_avail < free o (cells st r slot)).
-    { intros r Hr. destruct (gate_spec _ _ _ Hgate r Hr) as (_ & A & _). apply free_pos; [apply Ho|apply Ho|exact A]. }
+    { intros r Hr. destruct (gate_spec _ _ _ _ _ Hgate r Hr) as (_ & A & _). apply free_pos; [apply Ho|apply Ho|exact A]. }
     assert (Hm : 0 < m).
     { eapply common_pos; [|exact Ec]. intros r Hr. specialize (Hfree r Hr). unfold tol_avail in Hfree. lra. }
-    destruct (book_members_full t off first m slot Ho1 Ho2 Hm team st st Hnd (fun _ _ => eq_refl)) as (st1 & E & A & B & C).
-    { intros r Hr. destruct (gate_spec _ _ _ Hgate r Hr) as (G1 & G2 & G3).
+    destruct (book_members_full t off first m slot Ho1 Ho2 Hm team st st Hnd (fun _ _ => eq_refl) Hgate) as (st1 & E & A & B & C).
+    { intros r Hr. destruct (gate_spec _ _ _ _ _ Hgate r Hr) as (G1 & G2 & G3).
       split; [exact G1|]. split; [apply Hi|]. split; [exact G2|]. split; [exact G3|]. eapply common_le; eassumption. }
     exists m, st1, (map (fun r => (r, Qmin (G - used (pre first off (cells st r slot))) m, used (pre first off (cells st r slot)))) team).
     assert (Hamt : forall r, In r team -> Qmin (G - used (pre first off (cells st r slot))) m == m).
-    { intros r Hr. apply Q.min_r. destruct (gate_spec _ _ _ Hgate r Hr) as (_ & G2 & _).
+    { intros r Hr. apply Q.min_r. destruct (gate_spec _ _ _ _ _ Hgate r Hr) as (_ & G2 & _).
       pose proof (common_le _ _ _ _ _ _ Ec Hr) as Hle. fold o in Hle.
       pose proof (pre_avail first off (cells st r slot) (proj1 Hi r slot) Ho1) as Hav. fold o in Hav.
       specialize (Hfree r Hr). unfold avail in Hav.
@@ -251,7 +259,7 @@ Section TeamEffort.
       - apply IH. intros r' Hr'. apply Hamt. now right. }
     split.
     { intros r Hr. rewrite (A r Hr).
-      destruct (gate_spec _ _ _ Hgate r Hr) as (G1 & G2 & G3).
+      destruct (gate_spec _ _ _ _ _ Hgate r Hr) as (G1 & G2 & G3).
       destruct (book_one t off first m (cells st r slot) (proj1 Hi r slot) G2 G3 Ho1 Ho2 Hm (common_le _ _ _ _ _ _ Ec Hr)) as (He & Hmin & _).
       eexists. split; [exact Hmin|exact He]. }
     split; [exact B|]. split; [|exact C].
@@ -281,7 +289,7 @@ Section TeamEffort.
     pose proof (team_eff_pos' team Hne) as He. set (e := team_eff p team) in *.
     induction fuel as [|fuel IH]; intros slot done start st st' d Hd1 Hd2 Hi H; cbn [twalk] in H; [discriminate|].
     fold (multi team) in H. rewrite Hmulti in H. cbn [andb] in H.
-    destruct (forallb (member_available p st slot) team) eqn:Eg; cbn [negb] in H.
+    destruct (team_gate p st t slot (sbooked st) team) eqn:Eg; cbn [negb] in H.
     2:{ destruct (IH (S slot) done start st st' d Hd1 Hd2 Hi H) as (bs & B1 & B2 & B3 & B4 & B5 & B6 & B7).
         exists bs. split; [exact B1|]. split; [exact B2|]. split; [|repeat split; assumption].
         intros s x Hin. destruct (B3 s x Hin) as (A1 & A2). split; [lia|exact A2]. }
@@ -294,7 +302,7 @@ Section TeamEffort.
       - unfold tol_avail in Ho2. pose proof (tG_pos p Hwf). lra.
       - intros m' [= <-]. lra. }
     assert (Hwork : forall r, In r team -> sr_work (tres_of p r) slot = true).
-    { intros r Hr. now destruct (gate_spec _ _ _ Eg r Hr). }
+    { intros r Hr. now destruct (gate_spec _ _ _ _ _ Eg r Hr). }
     assert (Hother1 : forall u r' s', u <> t -> tent u (cells st1 r' s') = tent u (cells st r' s')).
     { intros u r' s' Hu. destruct (in_dec Nat.eq_dec r' team) as [Hr|Hr]; [destruct (Nat.eq_dec s' slot) as [->|Hs]|].
       - destruct (Hent r' Hr) as (xr & _ & Ee). unfold tent. rewrite Ee, filter_app. cbn [filter fst].
@@ -402,11 +410,11 @@ Section TeamEffort.
         - rewrite tcells_set_same. now apply Hc.
         - now rewrite tcells_set_other by (right; exact Hs).
         - now rewrite tcells_set_other by (left; exact Hr). }
-      destruct (Qle_bool _ _ || _).
+      destruct (_ || _ || negb _).
       + destruct (IH _ _ _ H) as [A B]. split; [|exact B].
         intros u r' s' Hu. rewrite (A u r' s' Hu). apply Hset; [|exact Hu]. intros; apply Ht1.
       + destruct (book_members p t off first cap slot tl _) as [st2 l2] eqn:E2. injection H as <- _.
-        destruct (IH _ _ _ E2) as [A B]. split; [|exact B].
+        destruct (IH _ _ _ E2) as [A B]. rewrite cells_note in A. split; [|exact B].
         intros u r' s' Hu. rewrite (A u r' s' Hu). apply Hset; [|exact Hu].
         intros u' Hu'. rewrite tent_book_other by exact Hu'. apply Ht1.
   Qed.
